@@ -58,7 +58,7 @@ func TestVerifServe(t *testing.T) {
 	b, _ := json.Marshal(out)
 	os.WriteFile(filepath.Join(dir, "ready.json.tmp"), b, 0644)
 	os.Rename(filepath.Join(dir, "ready.json.tmp"), filepath.Join(dir, "ready.json"))
-	for i := 0; i < 6000; i++ {
+	for i := 0; i < 72000; i++ { // up to two hours, or until the stop file appears
 		if _, err := os.Stat(filepath.Join(dir, "stop")); err == nil {
 			return
 		}
